@@ -6,6 +6,8 @@ Tables (emitted to lean/NessaiVerif/Gen/Tables.lean):
   rngSites         every call site that draws (or seeds, or constructs) random numbers
   seededSources    the random sources seeded by BaseNestedSampler.configure_random_seed
   guardedDraws     places where drawing random numbers is conditional on a parallelisation setting
+  constructorChainStandard / constructorChainImportance   the calls of the FlowSampler -> sampler -> BaseNestedSampler
+                   constructor chain in execution order, with the drawing and the seeding steps marked
   seedReplaced / seedBinds / seedCalls   the decision logic of configure_random_seed (when the seed is replaced, what is
                    stored, which generators are seeded with it and whether unconditionally)
 
@@ -490,6 +492,98 @@ def scan_seed_function(tree, al):
     return dict(guard_lean=lean, guard_src=text, guard_line=line, binds=binds, calls=calls,
                 first=fn.lineno, last=fn.end_lineno)
 
+
+# ------------------------------------------------------------------------------------------------ constructor call order
+CHAINS = {   # chain name -> (file, class) of the sampler FlowSampler constructs
+    "standard": ("nessai/samplers/nestedsampler.py", "NestedSampler"),
+    "importance": ("nessai/samplers/importancesampler.py", "ImportanceNestedSampler"),
+}
+FLOWSAMPLER = ("nessai/flowsampler.py", "FlowSampler")
+BASE = ("nessai/samplers/base.py", "BaseNestedSampler")
+
+
+def _find_init(trees, file, cls):
+    for rel, tree in trees:
+        if rel != file:
+            continue
+        for node in ast.walk(tree):
+            if isinstance(node, ast.ClassDef) and node.name == cls:
+                for b in node.body:
+                    if isinstance(b, ast.FunctionDef) and b.name == "__init__":
+                        return b
+    raise ScanError(f"{cls}.__init__ not found in {file}")
+
+
+def _calls_in_order(fn):
+    """Call nodes of a function body (not of nested defs/lambdas), inner before outer, in source order"""
+    out = []
+
+    def walk(n):
+        for c in ast.iter_child_nodes(n):
+            if isinstance(c, (ast.FunctionDef, ast.AsyncFunctionDef, ast.Lambda, ast.ClassDef)):
+                continue
+            walk(c)
+            if isinstance(c, ast.Call):
+                out.append(c)
+
+    for st in fn.body:
+        walk(st)
+        if isinstance(st, ast.Call):
+            out.append(st)
+    out.sort(key=lambda c: (c.end_lineno, c.end_col_offset))
+    return out
+
+
+def scan_constructor_chain(trees, aliases, drawing, chain):
+    """the calls executed by FlowSampler(...) for a new (not resumed) run, in order: FlowSampler.__init__ with the
+    sampler construction expanded into <Sampler>.__init__ and its `super().__init__` into BaseNestedSampler.__init__.
+    Each step: does the callee (by name) draw random numbers; is it the seeding step."""
+    sfile, scls = CHAINS[chain]
+    steps = []
+
+    def resume_branch_calls(fn):
+        """ids of the calls in the `if resume …:` branch of FlowSampler.__init__ (the sibling of the construction)"""
+        skip = set()
+        for node in ast.walk(fn):
+            if isinstance(node, ast.If) and any(isinstance(c, ast.Call) and src(c.func) == "SamplerClass"
+                                                 for b in node.orelse for c in ast.walk(b)):
+                for b in node.body:
+                    skip |= {id(c) for c in ast.walk(b) if isinstance(c, ast.Call)}
+        return skip
+
+    def emit(file, cls, fn, depth):
+        al = aliases[file]
+        skip = resume_branch_calls(fn) if depth == 0 else set()
+        for c in _calls_in_order(fn):
+            if id(c) in skip:
+                continue
+            text = src(c.func, 70)
+            callee = c.func.attr if isinstance(c.func, ast.Attribute) else (c.func.id if isinstance(c.func, ast.Name) else "")
+            if (file, cls) == FLOWSAMPLER and text == "SamplerClass" and depth == 0:
+                # the non-resume construction is the call that passes `close_pool=`; resume paths pass the class as an argument
+                steps.append(dict(file=file, func=f"{cls}.__init__", line=c.lineno, call=f"{scls}(…)", draws=False, seeds=False))
+                emit(sfile, scls, _find_init(trees, sfile, scls), 1)
+                continue
+            if text == "super().__init__" and depth == 1:
+                steps.append(dict(file=file, func=f"{cls}.__init__", line=c.lineno, call=text, draws=False, seeds=False))
+                emit(BASE[0], BASE[1], _find_init(trees, *BASE), 2)
+                continue
+            if text in ("super", "logger.info", "logger.debug", "logger.warning", "logger.error", "logger.isEnabledFor"):
+                continue
+            seeds = callee == SEED_FUNC
+            direct = classify_call(c, al)
+            draws = (not seeds) and (callee in drawing or (direct is not None and direct[1] == "draw"))
+            steps.append(dict(file=file, func=f"{cls}.__init__", line=c.lineno, call=text, draws=bool(draws), seeds=bool(seeds)))
+
+    emit(FLOWSAMPLER[0], FLOWSAMPLER[1], _find_init(trees, *FLOWSAMPLER), 0)
+    if not any(s["call"].startswith(scls + "(") for s in steps):
+        raise ScanError(f"FlowSampler.__init__: construction of the sampler (SamplerClass(...)) not found")
+    if not any(s["call"] == "super().__init__" for s in steps):
+        raise ScanError(f"{scls}.__init__: super().__init__ not found")
+    for i, s_ in enumerate(steps):
+        s_["idx"] = i
+    return steps
+
 # ------------------------------------------------------------------------------------------------ whole package
 def scan(repo):
     repo = Path(repo)
@@ -529,11 +623,12 @@ def scan(repo):
             seedfn = scan_seed_function(tree, aliases[rel])
     if seedfn is None:
         raise ScanError(f"{SEED_FILE} not found")
+    chains = {name: scan_constructor_chain(trees, aliases, drawing, name) for name in CHAINS}
     for s in sites:
         s.pop("_node", None)
     key = lambda d: (d["file"], d["line"], d.get("setting", ""), d.get("call", ""), d.get("method", ""), d.get("draw", ""))  # noqa
     return dict(reads=sorted(reads, key=key), calls=sorted(calls, key=key), sites=sorted(sites, key=key),
-                guarded=sorted(guarded, key=key), seeded=seeded, seedfn=seedfn, n_files=len(files), sha256=h.hexdigest())
+                guarded=sorted(guarded, key=key), seeded=seeded, seedfn=seedfn, chains=chains, n_files=len(files), sha256=h.hexdigest())
 
 
 # ------------------------------------------------------------------------------------------------ rendering
@@ -597,6 +692,15 @@ def render(t):
                   for c in sf["calls"]])
     L.append("]")
     L.append("")
+    for name in sorted(t["chains"]):
+        L.append(f"/-- the calls executed by `FlowSampler(...)` for a new {name} run, in order (sampler construction and")
+        L.append("`super().__init__` expanded in place); `draws`: the callee (by name) can draw random numbers; `seeds`: it is")
+        L.append("`configure_random_seed` -/")
+        L.append(f"def constructorChain{name.capitalize()} : List CallStep := [")
+        L += _commas([f"  ⟨{c['idx']}, {lstr(c['file'])}, {lstr(c['func'])}, {c['line']}, {lstr(c['call'])}, "
+                      f"{'true' if c['draws'] else 'false'}, {'true' if c['seeds'] else 'false'}⟩" for c in t["chains"][name]])
+        L.append("]")
+        L.append("")
     L.append("end NessaiVerif.Gen.Tables")
     return "\n".join(L) + "\n"
 
